@@ -200,3 +200,13 @@ Example resolve_path_laws_nonvacuous :
   resolve_path false "root/a" false "CallExpr.Fun" "root/vendor/golang.org/x/b" = "golang.org/x/b" /\
   resolve_path false "root/a" true "CallExpr.Fun" "root/a" = "root/a".
 Proof. vm_compute. repeat split. Qed.
+
+(* ---- moving code (C10): with ResolveLocalPath what is stored does not depend on the package the
+        code was decorated in; without it, it does (a reference to the package's own objects) ---- *)
+Theorem resolve_path_independent_of_source_package force l1 l2 pf raw :
+  resolve_path force l1 true pf raw = resolve_path force l2 true pf raw.
+Proof. unfold resolve_path. destruct (negb force && in_avoid pf); reflexivity. Qed.
+
+Example resolve_path_depends_on_source_package_without_local_paths :
+  exists l1 l2 pf raw, resolve_path false l1 false pf raw <> resolve_path false l2 false pf raw.
+Proof. exists "root/a", "root/b", "CallExpr.Fun", "root/a". vm_compute. discriminate. Qed.
